@@ -1,13 +1,15 @@
 \* C16 gate machine, quick tier. Constants: Big = FALSE: every hiding operation with one root
-\* selection, and with two where the second is a plain one; extension installed or not.
-\* Measured: 2228 operations, 17068 states generated, 15092 distinct, depth 6, ~6 s; -coverage 1:
-\* every disjunct of GNext (CreateOpCtx, MutateOpCtx, NoMutator, Resolve, Finish) is taken.
+\* selection, and with two where the second is a plain one, x {nothing registered, extension alone};
+\* every registration order of at most 3 writers of DisableIntrospection (242 orders) x 21 shapes.
+\* Measured: 7274 operations, 82334 states generated, 79632 distinct, depth 13, ~10 s; -coverage 1:
+\* every disjunct of GNext (CreateOpCtx, IntroMutate, UserMutate, NotMutator, MutateDone, GuardWrites,
+\* GuardPasses, NotInterceptor, DispatchDone, Resolve, Finish) is taken.
 CONSTANTS
     Big = FALSE
     Schemas <- MCSchemas
     Ops <- MCOps
 INIT GInit
 NEXT GNext
-INVARIANTS GateWellFormed OnlyExtEnables GateHolds NoLeak
+INVARIANTS GateWellFormed LastWriterDecides OnlyWritersEnable GateHolds NoLeak GateOpen
 ACTION_CONSTRAINT EmitGate
 CHECK_DEADLOCK FALSE
